@@ -538,109 +538,143 @@ mod v_wire_roundtrip {
     }
 
     // ------------------------------------------------------------------ ICMPv6
+    // Lengths are concrete per harness: a copy of symbolic length into the packet buffer makes CBMC forget the
+    // (concrete) message-type byte, and Repr::parse then explores the NDISC/MLD parsers as well (out of memory).
 
-    // @harness props=C06 cfg=KW tier=q to=300 mem=4 unwind=20 opts=nomem covers=2 funcs=wire::icmpv6::Repr::emit;wire::icmpv6::Repr::parse;wire::icmpv6::Repr::buffer_len bounds=echo_request_and_reply;_data_0..=8_bytes
-    #[kani::proof]
-    pub(crate) fn rt_icmpv6_echo() {
-        let data: [u8; 8] = kani::any();
-        let dl = any_le(8);
+    fn icmpv6_echo_rt<const REPLY: bool, const DL: usize>() {
+        let data: [u8; DL] = kani::any();
         let ident: u16 = kani::any();
         let seq_no: u16 = kani::any();
-        let reply: bool = kani::any();
         let (src, dst) = (any_v6(), any_v6());
-        let repr = if reply { Icmpv6Repr::EchoReply { ident, seq_no, data: &data[..dl] } } else { Icmpv6Repr::EchoRequest { ident, seq_no, data: &data[..dl] } };
+        let repr = if REPLY { Icmpv6Repr::EchoReply { ident, seq_no, data: &data[..] } } else { Icmpv6Repr::EchoRequest { ident, seq_no, data: &data[..] } };
         let n = repr.buffer_len();
+        assert!(n == 8 + DL, "prop:c06_parse_of_emit_is_identity");
         let mut b1 = [0u8; 16];
         let mut b2: [u8; 16] = kani::any();
-        repr.emit(&src, &dst, &mut Icmpv6Packet::new_unchecked(&mut b1[..n]), &caps());
-        repr.emit(&src, &dst, &mut Icmpv6Packet::new_unchecked(&mut b2[..n]), &caps());
-        indep!(b1, b2, n);
-        let p = Icmpv6Packet::new_checked(&b1[..n]);
+        repr.emit(&src, &dst, &mut Icmpv6Packet::new_unchecked(&mut b1[..8 + DL]), &caps());
+        repr.emit(&src, &dst, &mut Icmpv6Packet::new_unchecked(&mut b2[..8 + DL]), &caps());
+        indep!(b1, b2, 8 + DL);
+        let p = Icmpv6Packet::new_checked(&b1[..8 + DL]);
         assert!(p.is_ok(), "prop:c06_emitted_packet_passes_new_checked");
         match Icmpv6Repr::parse(&src, &dst, &p.unwrap(), &caps()) {
             Ok(Icmpv6Repr::EchoReply { ident: i, seq_no: s, data: d }) => {
-                assert!(reply && i == ident && s == seq_no, "prop:c06_parse_of_emit_is_identity");
-                same_bytes!(d, data, dl, "prop:c06_parse_of_emit_is_identity");
+                assert!(REPLY && i == ident && s == seq_no, "prop:c06_parse_of_emit_is_identity");
+                same_bytes!(d, data, DL, "prop:c06_parse_of_emit_is_identity");
+                kani::cover!(i == 0xffff, "echo reply parsed back");
             }
             Ok(Icmpv6Repr::EchoRequest { ident: i, seq_no: s, data: d }) => {
-                assert!(!reply && i == ident && s == seq_no, "prop:c06_parse_of_emit_is_identity");
-                same_bytes!(d, data, dl, "prop:c06_parse_of_emit_is_identity");
+                assert!(!REPLY && i == ident && s == seq_no, "prop:c06_parse_of_emit_is_identity");
+                same_bytes!(d, data, DL, "prop:c06_parse_of_emit_is_identity");
+                kani::cover!(i == 0xffff, "echo request parsed back");
             }
             _ => assert!(false, "prop:c06_parse_of_emit_is_identity"),
         }
-        kani::cover!(reply && dl == 8, "echo reply with 8 data bytes");
-        kani::cover!(!reply && dl == 0, "echo request without data");
     }
 
-    /// KIND: 0 DstUnreachable, 1 PktTooBig, 2 TimeExceeded, 3 ParamProblem
-    fn icmpv6_error<'a, const KIND: u8>(data: &'a [u8]) -> Icmpv6Repr<'a> {
+    // @harness props=C06 cfg=KW tier=q to=300 mem=4 unwind=20 opts=nomem covers=1 funcs=wire::icmpv6::Repr::emit;wire::icmpv6::Repr::parse;wire::icmpv6::Repr::buffer_len bounds=echo_request;_8_data_bytes
+    #[kani::proof]
+    pub(crate) fn rt_icmpv6_echo_request() {
+        icmpv6_echo_rt::<false, 8>()
+    }
+
+    // @harness props=C06 cfg=KW tier=q to=300 mem=4 unwind=20 opts=nomem covers=1 funcs=wire::icmpv6::Repr::emit;wire::icmpv6::Repr::parse;wire::icmpv6::Repr::buffer_len bounds=echo_reply;_no_data
+    #[kani::proof]
+    pub(crate) fn rt_icmpv6_echo_reply_empty() {
+        icmpv6_echo_rt::<true, 0>()
+    }
+
+    // @harness props=C06 cfg=KW tier=t to=300 mem=4 unwind=20 opts=nomem covers=1 funcs=wire::icmpv6::Repr::emit;wire::icmpv6::Repr::parse bounds=echo_reply;_5_data_bytes
+    #[kani::proof]
+    pub(crate) fn rt_icmpv6_echo_reply() {
+        icmpv6_echo_rt::<true, 5>()
+    }
+
+    /// KIND: 0 DstUnreachable, 1 PktTooBig, 2 TimeExceeded, 3 ParamProblem; DL quoted payload bytes
+    fn icmpv6_error_rt<const KIND: u8, const DL: usize>() {
+        let data: [u8; DL] = kani::any();
+        let (src, dst) = (any_v6(), any_v6());
         // the embedded header's payload_len is an independent 16-bit field (the quoted payload may be cut)
         let header = any_ipv6_repr(65535);
-        match KIND {
-            0 => Icmpv6Repr::DstUnreachable { reason: Icmpv6DstUnreachable::from(kani::any::<u8>()), header, data },
-            1 => Icmpv6Repr::PktTooBig { mtu: kani::any(), header, data },
-            2 => Icmpv6Repr::TimeExceeded { reason: Icmpv6TimeExceeded::from(kani::any::<u8>()), header, data },
-            _ => Icmpv6Repr::ParamProblem { reason: Icmpv6ParamProblem::from(kani::any::<u8>()), pointer: kani::any(), header, data },
-        }
-    }
-
-    fn icmpv6_error_rt<const KIND: u8>() {
-        let data: [u8; 8] = kani::any();
-        let dl = any_le(8);
-        let (src, dst) = (any_v6(), any_v6());
-        let repr = icmpv6_error::<KIND>(&data[..dl]);
+        let code: u8 = kani::any();
+        let word: u32 = kani::any();
+        let repr = match KIND {
+            0 => Icmpv6Repr::DstUnreachable { reason: Icmpv6DstUnreachable::from(code), header, data: &data[..] },
+            1 => Icmpv6Repr::PktTooBig { mtu: word, header, data: &data[..] },
+            2 => Icmpv6Repr::TimeExceeded { reason: Icmpv6TimeExceeded::from(code), header, data: &data[..] },
+            _ => Icmpv6Repr::ParamProblem { reason: Icmpv6ParamProblem::from(code), pointer: word, header, data: &data[..] },
+        };
         let n = repr.buffer_len();
-        assert!(n == 48 + dl, "prop:c06_parse_of_emit_is_identity");
+        assert!(n == 48 + DL, "prop:c06_parse_of_emit_is_identity");
         let mut b1 = [0u8; 56];
         let mut b2: [u8; 56] = kani::any();
-        repr.emit(&src, &dst, &mut Icmpv6Packet::new_unchecked(&mut b1[..n]), &caps());
-        repr.emit(&src, &dst, &mut Icmpv6Packet::new_unchecked(&mut b2[..n]), &caps());
+        repr.emit(&src, &dst, &mut Icmpv6Packet::new_unchecked(&mut b1[..48 + DL]), &caps());
+        repr.emit(&src, &dst, &mut Icmpv6Packet::new_unchecked(&mut b2[..48 + DL]), &caps());
         if KIND == 0 || KIND == 2 {
             // bytes 4..8 ("unused"): finding_icmpv6_error_unused_stale
-            indep!(b1, b2, n, k => k < 4 || k >= 8);
+            indep!(b1, b2, 48 + DL, k => k < 4 || k >= 8);
         } else {
-            indep!(b1, b2, n);
+            indep!(b1, b2, 48 + DL);
         }
-        let p = Icmpv6Packet::new_checked(&b1[..n]);
+        let p = Icmpv6Packet::new_checked(&b1[..48 + DL]);
         assert!(p.is_ok(), "prop:c06_emitted_packet_passes_new_checked");
-        let back = Icmpv6Repr::parse(&src, &dst, &p.unwrap(), &caps());
-        assert!(back == Ok(repr), "prop:c06_parse_of_emit_is_identity");
-        kani::cover!(dl == 8 && back.is_ok(), "error with 8 quoted bytes");
-        kani::cover!(dl == 0, "error quoting only the header");
+        let (h, d) = match Icmpv6Repr::parse(&src, &dst, &p.unwrap(), &caps()) {
+            Ok(Icmpv6Repr::DstUnreachable { reason, header: h, data: d }) => {
+                assert!(KIND == 0 && reason == Icmpv6DstUnreachable::from(code), "prop:c06_parse_of_emit_is_identity");
+                (h, d)
+            }
+            Ok(Icmpv6Repr::PktTooBig { mtu, header: h, data: d }) => {
+                assert!(KIND == 1 && mtu == word, "prop:c06_parse_of_emit_is_identity");
+                (h, d)
+            }
+            Ok(Icmpv6Repr::TimeExceeded { reason, header: h, data: d }) => {
+                assert!(KIND == 2 && reason == Icmpv6TimeExceeded::from(code), "prop:c06_parse_of_emit_is_identity");
+                (h, d)
+            }
+            Ok(Icmpv6Repr::ParamProblem { reason, pointer, header: h, data: d }) => {
+                assert!(KIND == 3 && reason == Icmpv6ParamProblem::from(code) && pointer == word, "prop:c06_parse_of_emit_is_identity");
+                (h, d)
+            }
+            _ => {
+                assert!(false, "prop:c06_parse_of_emit_is_identity");
+                return;
+            }
+        };
+        assert!(h == header, "prop:c06_parse_of_emit_is_identity");
+        same_bytes!(d, data, DL, "prop:c06_parse_of_emit_is_identity");
+        kani::cover!(h.payload_len == 1280 && code == 4, "error about a 1280-byte payload parsed back");
     }
 
-    // @harness props=C06 cfg=KW tier=q to=300 mem=4 unwind=20 opts=nomem covers=2 funcs=wire::icmpv6::Repr::emit;wire::icmpv6::Repr::parse;wire::icmpv6::Repr::buffer_len bounds=dst_unreachable;_embedded_header_plus_0..=8_bytes;_unused_bytes_4..8_excluded_from_stale_check
+    // @harness props=C06 cfg=KW tier=q to=300 mem=4 unwind=20 opts=nomem covers=1 funcs=wire::icmpv6::Repr::emit;wire::icmpv6::Repr::parse;wire::icmpv6::Repr::buffer_len bounds=dst_unreachable;_embedded_header_plus_8_bytes;_unused_bytes_4..8_excluded_from_stale_check
     #[kani::proof]
     pub(crate) fn rt_icmpv6_dst_unreachable() {
-        icmpv6_error_rt::<0>()
+        icmpv6_error_rt::<0, 8>()
     }
 
-    // @harness props=C06 cfg=KW tier=t to=300 mem=4 unwind=20 opts=nomem covers=2 funcs=wire::icmpv6::Repr::emit;wire::icmpv6::Repr::parse bounds=pkt_too_big;_embedded_header_plus_0..=8_bytes
+    // @harness props=C06 cfg=KW tier=t to=300 mem=4 unwind=20 opts=nomem covers=1 funcs=wire::icmpv6::Repr::emit;wire::icmpv6::Repr::parse bounds=pkt_too_big;_embedded_header_plus_8_bytes
     #[kani::proof]
     pub(crate) fn rt_icmpv6_pkt_too_big() {
-        icmpv6_error_rt::<1>()
+        icmpv6_error_rt::<1, 8>()
     }
 
-    // @harness props=C06 cfg=KW tier=t to=300 mem=4 unwind=20 opts=nomem covers=2 funcs=wire::icmpv6::Repr::emit;wire::icmpv6::Repr::parse bounds=time_exceeded;_embedded_header_plus_0..=8_bytes;_unused_bytes_4..8_excluded_from_stale_check
+    // @harness props=C06 cfg=KW tier=t to=300 mem=4 unwind=20 opts=nomem covers=1 funcs=wire::icmpv6::Repr::emit;wire::icmpv6::Repr::parse bounds=time_exceeded;_embedded_header_only;_unused_bytes_4..8_excluded_from_stale_check
     #[kani::proof]
     pub(crate) fn rt_icmpv6_time_exceeded() {
-        icmpv6_error_rt::<2>()
+        icmpv6_error_rt::<2, 0>()
     }
 
-    // @harness props=C06 cfg=KW tier=q to=300 mem=4 unwind=20 opts=nomem covers=2 funcs=wire::icmpv6::Repr::emit;wire::icmpv6::Repr::parse bounds=param_problem;_embedded_header_plus_0..=8_bytes
+    // @harness props=C06 cfg=KW tier=q to=300 mem=4 unwind=20 opts=nomem covers=1 funcs=wire::icmpv6::Repr::emit;wire::icmpv6::Repr::parse bounds=param_problem;_embedded_header_plus_3_bytes
     #[kani::proof]
     pub(crate) fn rt_icmpv6_param_problem() {
-        icmpv6_error_rt::<3>()
+        icmpv6_error_rt::<3, 3>()
     }
 
     // DstUnreachable/TimeExceeded: the 4 "unused" bytes after the checksum are never written
-    // @harness props=C06 cfg=KW tier=q kind=finding to=300 mem=4 unwind=20 opts=nomem covers=1 funcs=wire::icmpv6::Repr::emit bounds=dst_unreachable_and_time_exceeded;_bytes_4..8
+    // @harness props=C06 cfg=KW tier=q kind=finding to=300 mem=4 unwind=20 opts=nomem covers=1 funcs=wire::icmpv6::Repr::emit bounds=dst_unreachable;_bytes_4..8
     #[kani::proof]
     pub(crate) fn finding_icmpv6_error_unused_stale() {
         let data: [u8; 8] = kani::any();
         let (src, dst) = (any_v6(), any_v6());
-        let te: bool = kani::any();
-        let repr = if te { icmpv6_error::<2>(&data[..]) } else { icmpv6_error::<0>(&data[..]) };
+        let repr = Icmpv6Repr::DstUnreachable { reason: Icmpv6DstUnreachable::from(kani::any::<u8>()), header: any_ipv6_repr(65535), data: &data[..] };
         let mut b1 = [0u8; 56];
         let mut b2: [u8; 56] = kani::any();
         repr.emit(&src, &dst, &mut Icmpv6Packet::new_unchecked(&mut b1[..]), &caps());
@@ -650,22 +684,30 @@ mod v_wire_roundtrip {
         assert!(b1[k] == b2[k], "prop:c06_emit_independent_of_prior_buffer_contents");
     }
 
-    // @harness props=C06 cfg=KW tier=q to=600 mem=6 unwind=20 opts=nomem covers=2 funcs=wire::icmpv6::Repr::parse;wire::icmpv6::Repr::emit;wire::ndisc::Repr::parse;wire::ndisc::Repr::emit bounds=arbitrary_bytes_len_0..=16_(echo;_router_solicit_with_one_option)
+    // @harness props=C06 cfg=KW tier=q to=600 mem=6 unwind=20 opts=nomem covers=1 funcs=wire::icmpv6::Repr::parse;wire::icmpv6::Repr::emit bounds=arbitrary_16_bytes_with_an_echo_type
     #[kani::proof]
-    pub(crate) fn reparse_icmpv6() {
+    pub(crate) fn reparse_icmpv6_echo() {
         let bytes: [u8; 16] = kani::any();
-        let len = any_le(16);
+        kani::assume(bytes[0] == 128 || bytes[0] == 129);
         let (src, dst) = (any_v6(), any_v6());
-        if let Ok(p) = Icmpv6Packet::new_checked(&bytes[..len]) {
+        if let Ok(p) = Icmpv6Packet::new_checked(&bytes[..]) {
             if let Ok(r) = Icmpv6Repr::parse(&src, &dst, &p, &caps()) {
                 let mut b = [0u8; 16];
                 let n = r.buffer_len();
-                assert!(n <= 16, "prop:c06_reparse_of_parsed_is_identity");
-                r.emit(&src, &dst, &mut Icmpv6Packet::new_unchecked(&mut b[..n]), &caps());
-                let back = Icmpv6Repr::parse(&src, &dst, &Icmpv6Packet::new_unchecked(&b[..n]), &caps());
-                kani::cover!(matches!(r, Icmpv6Repr::EchoReply { data, .. } if data.len() == 8), "echo reply with 8 data bytes");
-                kani::cover!(matches!(r, Icmpv6Repr::Ndisc(NdiscRepr::RouterSolicit { lladdr: Some(_) })), "router solicitation with a link-layer address");
-                assert!(back == Ok(r), "prop:c06_reparse_of_parsed_is_identity");
+                assert!(n == 16, "prop:c06_reparse_of_parsed_is_identity");
+                r.emit(&src, &dst, &mut Icmpv6Packet::new_unchecked(&mut b[..]), &caps());
+                match (r, Icmpv6Repr::parse(&src, &dst, &Icmpv6Packet::new_unchecked(&b[..]), &caps())) {
+                    (Icmpv6Repr::EchoRequest { ident, seq_no, data }, Ok(Icmpv6Repr::EchoRequest { ident: i, seq_no: s, data: d })) => {
+                        assert!(ident == i && seq_no == s, "prop:c06_reparse_of_parsed_is_identity");
+                        same_bytes!(d, data, 8, "prop:c06_reparse_of_parsed_is_identity");
+                    }
+                    (Icmpv6Repr::EchoReply { ident, seq_no, data }, Ok(Icmpv6Repr::EchoReply { ident: i, seq_no: s, data: d })) => {
+                        assert!(ident == i && seq_no == s, "prop:c06_reparse_of_parsed_is_identity");
+                        same_bytes!(d, data, 8, "prop:c06_reparse_of_parsed_is_identity");
+                        kani::cover!(ident == 7, "echo reply re-parsed");
+                    }
+                    _ => assert!(false, "prop:c06_reparse_of_parsed_is_identity"),
+                }
             }
         }
     }
